@@ -31,11 +31,11 @@ type Step struct {
 	Cfg      *Config           `json:"cfg,omitempty"`  // reconf
 	Expect   string            `json:"expect,omitempty"`
 	// restart
-	Stale   bool     `json:"stale,omitempty"`   // restart from the state-directory copy taken at step CutAt
-	Gone    []string `json:"gone,omitempty"`    // container keys the runtime lost while the plugin was down
-	GonePod []string `json:"gonepod,omitempty"` // pod keys the runtime lost
-	Advance []string `json:"advance,omitempty"` // container keys whose state advanced (created->running->stopped)
-	Hostile bool     `json:"hostile,omitempty"` // the step deliberately breaks lifecycle rules
+	Stale   bool            `json:"stale,omitempty"`   // restart from the state-directory copy taken at step CutAt
+	Gone    []string        `json:"gone,omitempty"`    // container keys the runtime lost while the plugin was down
+	GonePod []string        `json:"gonepod,omitempty"` // pod keys the runtime lost
+	Advance []string        `json:"advance,omitempty"` // container keys whose state advanced (created->running->stopped)
+	Hostile bool            `json:"hostile,omitempty"` // the step deliberately breaks lifecycle rules
 	Raw     json.RawMessage `json:"raw,omitempty"`
 }
 
@@ -63,18 +63,19 @@ type Violation struct {
 
 // Runner executes steps against an instance and keeps the runtime model.
 type Runner struct {
-	Inst   *Inst
-	M      *Model
-	Hist   int
-	StepNo int
-	Steps  []*Step
-	Viol   []Violation
-	Stats  map[string]int
-	Seen   map[string]map[string]struct{} // per property: distinct non-trivial state hashes
-	LogF   *os.File                       // command-before-execute log
-	Broken bool                           // a handler panicked: instance state is undefined
-	Props  map[string]bool                // properties whose monitors are enabled
-	LastOp string
+	Inst    *Inst
+	M       *Model
+	Hist    int
+	StepNo  int
+	Steps   []*Step
+	Viol    []Violation
+	Stats   map[string]int
+	Seen    map[string]map[string]struct{} // per property: distinct non-trivial state hashes
+	LogF    *os.File                       // command-before-execute log
+	PreStep func(*Step)                    // called before a step executes (hostile mode: replayable witness on disk before every call)
+	Broken  bool                           // a handler panicked: instance state is undefined
+	Props   map[string]bool                // properties whose monitors are enabled
+	LastOp  string
 	// set by the policy-specific monitors
 	MonTA  *TAMon
 	MonBln *BlnMon
@@ -89,10 +90,10 @@ type Runner struct {
 	Restarts   int
 	// a restart from an older cache snapshot happened: known containers keep the cached
 	// (stale) resources and requirements, see known finding KF7
-	StaleRestarted bool
-	Cond           map[string]bool // every oracle clause that has fired in this history
-	RejectedLeftPending bool       // a rejected reconfiguration left undelivered changes behind
-	NoShadow            bool       // concurrent mode: the order in which replies reach the runtime is unknown, skip runtime-view clauses
+	StaleRestarted      bool
+	Cond                map[string]bool // every oracle clause that has fired in this history
+	RejectedLeftPending bool            // a rejected reconfiguration left undelivered changes behind
+	NoShadow            bool            // concurrent mode: the order in which replies reach the runtime is unknown, skip runtime-view clauses
 }
 
 // BrokenStateSuffix names known-defective states the history has already been through; checks
@@ -158,7 +159,7 @@ var derivedCheck = map[string]bool{
 	"C02/cpuset": true, "C02/cpuset-hidden-ht": true,
 	"C03/exclusive-count": true, "C03/grant-amount": true, "C03/shares": true,
 	"C04/mems-vs-zone": true,
-	"C05/update-dead": true, "C05/view-mismatch": true,
+	"C05/update-dead":  true, "C05/view-mismatch": true,
 	"C12/cpus-told": true, "C12/mems-told": true,
 	"C09/balloons-state": true, "C09/free-cpus": true, "C09/pool-state": true, "C09/leak-grant": true, "C09/leak-memory": true, "C09/leak-member": true, "C09/dead-holds": true, "C09/holder-uncached": true,
 }
@@ -294,6 +295,9 @@ func (r *Runner) Do(s *Step) *Reply {
 	r.Steps = append(r.Steps, s)
 	r.LastOp = s.Op
 	r.logCmd(s)
+	if r.PreStep != nil {
+		r.PreStep(s)
+	}
 	rep := &Reply{}
 	if r.doLifecycle(s, rep) {
 		r.logReply(rep)
